@@ -31,8 +31,8 @@ func init() {
 		Floors: []string{"comparisons", "path_verbatim_copy", "path_column_reencode", "path_row", "source_file", "source_buffer", "source_range_view", "source_multi", "source_merged", "source_dedup", "source_foreign_reversed", "source_converted", "source_merged_wrapped", "wrapped_dedup_input", "wrapped_foreign_input", "pending_rows_before_write_rowgroup",
 			"dst_same_config", "dst_other_codec", "dst_other_version", "dst_other_encoding", "dst_small_pages", "dst_maxrows", "dst_bloom", "dst_page_statistics", "dst_index_size_limit", "settings_checked"},
 		Rule: "case = (source row group among: file row group, buffer, row-range view, MultiRowGroup, merged (overlapping or not), dedup wrapper, converted, and a foreign RowGroup implementation whose Rows() reverses the rows; source writer config from the option matrix; " +
-			"destination config equal to the source or with one setting changed: codec, page version, default encoding, page size, MaxRowsPerRowGroup, bloom filters). File A = dst.WriteRowGroup(src); the rows of A (library reader and independent decoder) must equal src.Rows() as read before, " +
-			"and A must honour the destination codec / page version / encoding / bloom filters / row-group size. Hook counters record which path ran. Distinct = descriptor hash",
+			"destination config equal to the source or with one setting changed: codec, page version, default encoding, page size, MaxRowsPerRowGroup, bloom filters, DataPageStatistics, ColumnIndexSizeLimit). File A = dst.WriteRowGroup(src); the rows of A (library reader and independent decoder) must equal src.Rows() as read before, " +
+			"and A must honour the destination codec / page version / encoding / bloom filters / row-group size / page statistics / column-index size limit. Hook counters record which path ran. Distinct = descriptor hash",
 		Assumptions: []string{"page boundaries and row-group partitioning below the configured maximum may differ, as the statement allows", "path counters are read through verif-tagged accessors"},
 		Run:         runC11,
 	})
